@@ -2,9 +2,9 @@ SPECIFICATION Spec
 CONSTANTS
   MemoLen = 512
   Fams = {"shape", "index", "amount", "memo", "pct", "addr", "struct", "T_render", "T_parse", "T_pct", "T_b64", "T_memo", "T_idx"}
-  MaxLen = 2
+  MaxLen = 3
   IdxN = 2
-  PctLen = 1
+  PctLen = 2
   Emit = FALSE
 INVARIANT Theorems
 CHECK_DEADLOCK FALSE
